@@ -55,7 +55,9 @@ class Prop:
             n, worlds, dur = 60 * mult, 5, 2000
         else:
             n, worlds, dur = 600 * mult, 40, 4000
+            self._cross = 12
         files, cases = self._run_go(["-seed", str(seed), "-n", str(n), "-worlds", str(worlds), "-dur-ms", str(dur),
+                                     "-cross", str(getattr(self, "_cross", 2)),
                                      "-shards", "16", "-out", self.dir, "-corpus", os.path.join(vlib.ROOT, "corpus", "C04")])
         dup = [c for c in cases if c["kind"] == "conc" and c.get("gen") == "dupresp"]
         conc = [c for c in cases if c["kind"] == "conc" and c.get("gen") != "dupresp"]
@@ -64,6 +66,8 @@ class Prop:
             "discarded_slow_scenarios": sum(1 for c in cases if c.get("slow")),
             "stuck_scenarios": sum(1 for c in cases if c.get("stuck")),
             "stress_worlds": len(conc),
+            "stress_crossing_worlds": sum(1 for c in conc if (c.get("cfg") or {}).get("cross")),
+            "stress_counters_raised_to_the_limit": sum(c["info"].get("counter_raised_to_limit", 0) for c in conc),
             "stress_transports": sum(c["info"]["transports"] for c in conc),
             "stress_keys": sum(c["info"]["keys"] for c in conc),
             "stress_keys_that_reached_the_limit": sum(c["info"]["keys_reached_limit"] for c in conc),
